@@ -219,7 +219,7 @@ c16_sched!(c16_release_at423_k2, quick, 4, OneWriteMultiRead, 2, 423, 2);
 c16_sched!(c16_writer_mwmr_at402_k2, thorough, 4, MultiWriteMultiRead, 0, 402, 2);
 c16_sched!(c16_release_mwmr_at422_k3, thorough, 5, MultiWriteMultiRead, 2, 422, 3);
 c16_sched!(c16_writer_at401_k3, thorough, 5, OneWriteMultiRead, 0, 401, 3);
-c16_sched!(c16_reader_at411_k3, thorough, 5, OneWriteMultiRead, 1, 411, 3);
+c16_sched!(c16_reader_at411_k3, probe, 5, OneWriteMultiRead, 1, 411, 3);
 
 
 // ---------------------------------------------------------------- LazyFreeList
